@@ -126,3 +126,38 @@ pub fn register_c13(v: &mut Vec<Scenario>) {
             extra: vec![("i8", "(= M 127)", Box::new(move || rect_center_int::<i8>(three)) as crate::explore::Run), ("i32", "(= M 2147483647)", Box::new(move || rect_center_int::<i32>(three)) as crate::explore::Run)], max_paths: 4096, timeout: Some((10, 120)) });
     }
 }
+
+/// C02 / C19 at integer element types: `average()` is the sum divided by the dimension in the machine's truncating
+/// division — dividing each element first (or any other re-association that is harmless over the reals) changes the
+/// result — and `average_rgb()` is (r + g + b) / 3 with the alpha left out.
+fn average_int<T: IntSc + From<u8> + vek::ops::ColorComponent + std::ops::Div<Output = T> + std::ops::Add<Output = T>>(n: usize, call: fn(&[T]) -> (T, Option<T>)) {
+    set_int_mode();
+    set_range_assumed(); // overflow of the sum is the caller's business; the subject is what is divided
+    let xs: Vec<T> = (0..n).map(|i| var::<T>(&format!("x{}", i))).collect();
+    let (avg, avg_rgb) = call(&xs);
+    let sum = xs[1..].iter().fold(xs[0], |a, b| a + *b);
+    goal("law/average = (sum of the elements) / dimension", eq(avg, sum / T::from(n as u8)));
+    if let Some(a) = avg_rgb {
+        goal("law/average_rgb = (r + g + b) / 3", eq(a, (xs[0] + xs[1] + xs[2]) / T::from(3u8)));
+    }
+}
+pub fn register_c02(v: &mut Vec<Scenario>) {
+    use crate::vecs::*;
+    macro_rules! avg { ($prop:literal, $V:ident, $rgb:tt) => {
+        fn call<T: IntSc + From<u8> + vek::ops::ColorComponent + std::ops::Div<Output = T> + std::ops::Add<Output = T>>(xs: &[T]) -> (T, Option<T>) {
+            let v = <$V<T> as VK<T>>::of(xs);
+            (v.average(), avg!(@rgb $rgb, v))
+        }
+        let n = <$V<i64> as VK<i64>>::N;
+        v.push(Scenario { name: format!("{}/int/average/{}", if $prop == "C02" { "c02" } else { "c19" }, stringify!($V)), prop: $prop, tier: 0, funcs: vec!["average", "average_rgb", "sum"], sym: Box::new(move || average_int::<SymIS>(n, call::<SymIS>)), f64_: None, cn: None,
+            extra: vec![("i16", "(= M 32767)", Box::new(move || average_int::<i16>(n, call::<i16>)) as crate::explore::Run), ("i64", "(= M 9223372036854775807)", Box::new(move || average_int::<i64>(n, call::<i64>)) as crate::explore::Run)], max_paths: 64, timeout: Some((10, 120)) });
+    } ; (@rgb true, $v:ident) => { Some($v.average_rgb()) }; (@rgb false, $v:ident) => { None } }
+    { avg!("C02", Vec2, false); }
+    { avg!("C02", Vec3, false); }
+    { avg!("C02", Vec4, false); }
+    { avg!("C02", Vec8, false); }
+    { avg!("C02", Extent3, false); }
+    { avg!("C02", Uv, false); }
+    { avg!("C19", Rgb, true); }
+    { avg!("C19", Rgba, true); }
+}
